@@ -318,6 +318,18 @@ def check_model(chk: Check, name: str, formalism: str, couplings=False, opaque=F
                     continue
             bad.append(cname)
     chk.struct(f"components.chain_amplitudes==spec[{tag}]", not bad, F, witness=bad[:4], bounded=True, replay=replay)
+    # (3b) the names the spec above takes from ampform's name generator belong to the chain they are generated for: every particle of
+    # the transition (by its LaTeX/name) occurs in the chain's amplitude name and coefficient suffix. (qrules transitions that differ in
+    # particle NAMES only compare equal; anything memoised on the transition would hand one chain the names of another.)
+    foreign = []
+    for t in r.transitions:
+        for what, text in (("amplitude name", b.naming.generate_amplitude_name(t)), ("coefficient suffix", b.naming.generate_sequential_amplitude_suffix(t))):
+            missing = [st.particle.name for st in t.states.values() if (st.particle.latex or st.particle.name) not in text]
+            if missing:
+                foreign.append({"chain": str({i: st.particle.name for i, st in t.states.items()}), "which": what, "generated": text[:160], "particles_not_named": missing})
+    chk.struct(f"names.every_chain_is_named_after_its_own_particles[{tag}]", not foreign, "ampform.helicity.naming.HelicityAmplitudeNameGenerator.generate_amplitude_name",
+               witness=foreign[:3], bounded=True,
+               replay=lambda _m=None: {"reproduced": bool(foreign), "input": tag, "observed": foreign[:2], "expected": "each chain's name mentions its own particles"})
     a_comps = {k for k in model.components if k.startswith("A_")}
     chk.struct(f"components.no_unexpected_chain[{tag}]", a_comps <= names, F, witness=sorted(a_comps - names)[:4], bounded=True, replay=replay)
     # intensity components: |sum over topologies of the group's amplitudes|^2
@@ -376,7 +388,8 @@ def build(chk: Check) -> None:
     chk.assume("SymPy's automatic flattening and ordering of Add/Mul preserves values (AC-normalisation)")
     chk.assume("symbol names come from ampform's naming functions; their meaning is C07's, coefficient sharing / parity sign C03's")
     chk.trust("z3 5.1.0 / cvc5 unsat answers; SymPy Rotation.d(...).doit() (its orthogonality is checked in C05)")
-    names = ["jpsi_gamma_pi0_pi0", "jpsi_pi0_pip_pim", "d1_k_k_k0", "jpsi_sigmabar_sigma", "etac_lambda_lambdabar", "jpsi_p_pbar", "jpsi_k0_sigma_pbar_N", "lambdac_p_k_pi", "jpsi_kk_pipi", "d0_k_3pi_cascade", "jpsi_gamma_pi0_pi0_f2", "d0_k_pi_pi0"]
+    names = ["jpsi_gamma_pi0_pi0", "jpsi_pi0_pip_pim", "d1_k_k_k0", "jpsi_sigmabar_sigma", "etac_lambda_lambdabar", "jpsi_p_pbar", "jpsi_k0_sigma_pbar_N", "lambdac_p_k_pi", "jpsi_kk_pipi", "d0_k_3pi_cascade", "jpsi_gamma_pi0_pi0_f2", "d0_k_pi_pi0",
+             "jpsi_gamma_pi0_pi0_twin"]  # resonances with an equal-but-renamed twin: transitions that compare equal and must still get their own names/coefficients
     if chk.tier == "quick":
         plan = [(n, f, c) for n in names for f in ("helicity", "canonical-helicity") for c in (CONFIGS_QUICK if n in names[:4] else CONFIGS_QUICK[:3])]
     else:
